@@ -28,7 +28,7 @@ from vlib.harness import Check, Mismatch, Part
 
 TEXTS = ["Hello", "Hello world", "  Hello\n   world  ", "a &amp; b", "é日本",
          " ", "\n  ", "x", "Price: ", " and ", ".", "$5", "100%"]
-NAMES = ["n1", "n2", "who"]
+NAMES = ["n1", "n2", "who", "a-b", "a_b", "a-b", "a_b"]
 
 
 # --------------------------------------------------------------------------
@@ -210,7 +210,7 @@ def source(nodes):
 # translation functions (the same code serves model and implementation:
 # they are the *environment*, not the thing under test)
 
-INTERP = re.compile(r"\$\{(\w+)\}")
+INTERP = re.compile(r"\$\{([-\w]+)\}")
 
 
 SIMPLE = re.compile(r"(?<!\$)\$(?:([a-zA-Z][-a-zA-Z0-9_]*)|"
